@@ -351,6 +351,25 @@ func runC05(r *vf.Runner) {
 	run := func(c c05case) { r.Case(c, func(t *vf.T) { runC05case(t, pool, c) }) }
 	ops := []string{"reshard", "reshuffle", "reduce", "cogroup"}
 	single := []string{"int", "int64", "int32", "int16", "int8", "uint", "uint64", "uint32", "uint16", "uint8", "string", "bytes", "bool", "float64", "float32"}
+	// Process history: every second child meets the keys of the cross-process key sets first through
+	// single-shard aggregations (combining without partitioning: the combiner hashes keys with its own
+	// seed), the others first through the partitioner. The assignment may not depend on which code
+	// hashed a key value first in the process.
+	odd := r.Batch%2 == 1
+	r.CaseAll(map[string]any{"prelude": "single-shard aggregations first in odd children"}, func(t *vf.T) {
+		if !odd {
+			return
+		}
+		for _, k := range single {
+			for _, op := range []string{"reduce", "cogroup"} {
+				runC05case(t, pool, c05case{Conf: localP4, Kinds: []string{k}, Op: op, Producers: 1, NShard: 1, KeySet: "random", NKeys: 200, Dup: 2, Seed: 99})
+			}
+		}
+		for _, k := range []string{"uint8", "int8"} {
+			runC05case(t, pool, c05case{Conf: localP4, Kinds: []string{k}, Op: "reduce", Producers: 1, NShard: 1, KeySet: "full8", Dup: 2, Seed: 1})
+		}
+		t.Count("history_preludes", 1)
+	})
 	// exhaustive 8- and 16-bit and bool keys
 	for _, k := range []string{"uint8", "int8", "bool"} {
 		for _, n := range []int{2, 3, 5, 16, 17} {
